@@ -91,11 +91,16 @@ def handle(run, results, build, what='entries differ from the oracle'):
         for sres in sats:
             fams.setdefault(sres['name'].split('[')[0], []).append(sres['name'])
         for fam, names in sorted(fams.items()):
+            if fam.endswith('~known'):
+                # characterisation of a recorded finding: only meaningful when the property obligation itself fails
+                continue
             fbad = [b for b in bad if b[0].split('[')[0] == fam]
             if not fbad:
                 run.harness_error('sat obligations %s of %s %s did not reproduce in the exact-rational replay' % (fam, res['group'], cfg))
                 continue
             key = '%s/%s/%s' % (res['group'], cfg['variant'], fam)
+            if (fam + '~known') in fams:
+                key += '/differs-from-recorded-finding'
             run.violation(key, ('%s m=%d n=%d: %d ' + what + ', e.g. %s impl=%.6g oracle=%.6g') % (
                 res['group'], cfg['m'], cfg['n'], len(fbad), fbad[0][0], fbad[0][1], fbad[0][2]),
                 {'cfg': cfg, 'inputs': info['values'], 'differing_entries': fbad[:10], 'n_sat': len(names)})
